@@ -47,7 +47,13 @@ RULE = (
     "under the same seed with an unrelated request in between), both results judged; shapes as int32 / uint8 arrays, numpy "
     "scalars and tuples of numpy integers; element vectors, aggregated values and subscripts in integer / boolean dtypes "
     "(subscripts also at the top of uint8 / uint16); counts as numpy scalars; reducers by name and as NumPy callable; "
-    "exact cancellation of general floats; values scaled by 1e-6 / 1e+6; F-ordered and strided subscript arrays."
+    "exact cancellation of general floats; values scaled by 1e-6 / 1e+6; F-ordered and strided subscript arrays.  Round 3: "
+    "C20/sparse/huge-shapes - sptenrand (count and density), sptensor.from_function, from_aggregator and sptendiag on shapes "
+    "with more than 2**31, 2**53 and 2**63 entries and modes up to 2**62, judged on Python integers (subscripts inside the "
+    "shape, distinct, exact count, values, reproducible under the seed, dictionary aggregation); aggregated values and "
+    "diagonal elements scaled by 1e-9 / 1e-12 / 1e-300 with the clause 'only exact zeros are dropped'; an empty element "
+    "vector for the diagonals; the second result of every dense / random sparse generator stays alive and is judged again "
+    "after a third result was made and edited; the arguments of tendiag / sptendiag are judged after the result was edited."
 )
 ASSUMPTIONS = [
     "teneye: T x^(m-1) = x for unit x is checked with |got - x| <= 1e-12 (the rounding of ||x|| = 1 and of a sum of "
@@ -191,6 +197,16 @@ def _dense_generators(ctx, case):
                 ttb.tenrand((2, 3))
         else:
             ctx.check(np.array_equal(R.data, keep["R"]), "tenrand-reproducible-under-seed")
+            # (round 3) two results alive at once: a third set is made and edited, the second set is judged again
+            with ctx.sut("dense-generators/third-call"):
+                third = [ttb.tenones(_shape_arg(shape, case["form"]), **kw), ttb.tenzeros(_shape_arg(shape, case["form"]), **kw)]
+                np.random.seed(case["np_seed"])
+                third.append(ttb.tenrand(_shape_arg(shape, case["form"]), **kw))
+            for T in third:
+                if isinstance(T, ttb.tensor):
+                    spoil_tensor(T)
+            ctx.check(bool(np.all(O.data == 1.0)) and bool(np.all(Z.data == 0.0)) and np.array_equal(R.data, keep["R"]),
+                      "dense-generators-earlier-result-changed-by-later-call")
 
 
 @cell("C20/dense/ones-zeros-rand", strategy=_dense_gen_case, quick=500, thorough=10000, shards=(1, 8))
@@ -261,10 +277,15 @@ def _dense_from_function(ctx, case):
 
 @st.composite
 def _diag_case(draw, tier):
-    k = draw(st.integers(1, 5))
+    k = draw(st.sampled_from([0, 1, 1, 2, 2, 3, 3, 4, 4, 5, 5]))  # (round 3) 0: no element at all, with a shape given
     vkind = draw(st.sampled_from(["int", "float"]))
     el = draw(st.lists(gen.values(vkind), min_size=k, max_size=k))
+    # (round 3) whole element vectors of magnitude 1e-9 .. 1e-300 / 1e+300: below every absolute tolerance, still not zero
+    scale = draw(st.sampled_from([1.0, 1.0, 1.0, 1e-9, 1e-12, 1e-300, 1e300])) if vkind == "float" else 1.0
+    el = [v * scale for v in el]
     mode = draw(st.sampled_from(["default", "cubical", "noncubical", "noncubical", "noncubical"]))
+    if k == 0 and mode == "default":
+        mode = "noncubical"
     maxs = 5 if tier == "quick" else 7
     if mode == "default":
         k = min(k, 4)
@@ -277,17 +298,17 @@ def _diag_case(draw, tier):
         n = draw(st.integers(1, 4))
         shape = [draw(st.integers(1, maxs)) for _ in range(n)]
         # make "shorter / equal / longer than some mode" all likely
-        if draw(st.booleans()) and n >= 2:
+        if draw(st.booleans()) and n >= 2 and k >= 1:
             shape[draw(st.integers(0, n - 1))] = k
     elform = draw(st.sampled_from(["list", "ndarray", "tuple", "col", "scalar" if k == 1 else "list"] +
                                   (["ndarray-int64", "ndarray-int32", "ndarray-uint8", "ndarray-bool", "list-int"]
-                                   if vkind == "int" else [])))
+                                   if vkind == "int" else []))) if k else "ndarray"
     if elform == "ndarray-uint8":
         el = [abs(v) for v in el]
     elif elform == "ndarray-bool":
         el = [float(v != 0) for v in el]
     sform = draw(st.sampled_from(_SHAPE_FORMS + (["int"] if shape and len(shape) == 1 else [])))
-    return dict(elements=el, shape=shape, elform=elform, sform=sform, vkind=vkind,
+    return dict(elements=el, shape=shape, elform=elform, sform=sform, vkind=vkind, scale=scale,
                 order=draw(st.sampled_from(["F", "C", None])))
 
 
@@ -342,7 +363,7 @@ def _diagonals(ctx, case):
                   *(["elements-shorter-than-a-mode"] if any(k < d for d in shape) else []),
                   *(["elements-equal-a-mode"] if any(k == d for d in shape) else []))
     ctx.label("has-zero-element" if any(v == 0 for v in el) else "no-zero-element", f"order{E.ndim}", "elements-" + case["elform"],
-              "shape-" + str(case["sform"]))
+              "shape-" + str(case["sform"]), f"scale-{case.get('scale', 1.0):g}", "no-elements" if k == 0 else "some-elements")
     ctx.nt = shape is not None and len(set(shape)) >= 2 and any(k != d for d in shape) and k >= 2
     kw = {} if case["order"] is None else dict(order=case["order"])
 
@@ -353,14 +374,12 @@ def _diagonals(ctx, case):
         return out
 
     u8 = _U8 if diag_u8(case) else ""
+    ne = "/no-elements" if k == 0 else ""
     ctx.label("uint8-entries-product-overflows" if u8 else "shape-product-fits-entry-dtype")
     for tag in ("", "/second-call"):
-        with ctx.sut("tendiag" + u8 + tag):
-            T = ttb.tendiag(*args(), **kw)
-        _is_F_tensor(ctx, T, E.shape, "tendiag" + tag)
-        ctx.check(ref.same_exact(T.data, E), "tendiag-values-on-superdiagonal-zero-elsewhere" + tag, ref.diff_info(T.data, E))
-        with ctx.sut("sptendiag" + tag):
-            S = ttb.sptendiag(*args())
+        held = args()  # (round 3) the caller keeps its arguments: they are judged again after the result was edited
+        with ctx.sut("sptendiag" + ne + tag):
+            S = ttb.sptendiag(*held)
         ctx.require(isinstance(S, ttb.sptensor), "sptendiag-returns-sptensor" + tag, type(S).__name__)
         ctx.check(tup(S.shape) == E.shape, "sptendiag-shape" + tag, f"{S.shape} vs {E.shape}")
         probs = ref.sptensor_problems(S)
@@ -368,9 +387,30 @@ def _diagonals(ctx, case):
         ctx.check(ref.same_exact(ref.den(S), E), "sptendiag-values-on-superdiagonal-zero-elsewhere" + tag,
                   ref.diff_info(ref.den(S), E))
         ctx.check(S.nnz == sum(1 for v in el if v != 0), "sptendiag-stores-nonzero-elements-only" + tag, S.nnz)
-        if tag == "":
-            spoil_tensor(T)
-            spoil_sptensor(S)
+        spoil_sptensor(S)
+        ctx.check(_same_args(held, args()), "sptendiag-result-edit-reaches-arguments" + tag)
+        with ctx.sut("tendiag" + u8 + ne + tag):
+            T = ttb.tendiag(*held, **kw)
+        _is_F_tensor(ctx, T, E.shape, "tendiag" + tag)
+        ctx.check(ref.same_exact(T.data, E), "tendiag-values-on-superdiagonal-zero-elsewhere" + tag, ref.diff_info(T.data, E))
+        spoil_tensor(T)
+        ctx.check(_same_args(held, args()), "tendiag-result-edit-reaches-arguments" + tag)
+
+
+def _same_args(held, fresh):
+    """the arguments a caller kept are still what a fresh build of them gives (arrays compared with dtype)"""
+    if len(held) != len(fresh):
+        return False
+    for a, b in zip(held, fresh):
+        if isinstance(b, np.ndarray):
+            if not (isinstance(a, np.ndarray) and a.dtype == b.dtype and a.shape == b.shape and ref.same_exact(a, b)):
+                return False
+        elif isinstance(b, (list, tuple)):
+            if not (type(a) is type(b) and len(a) == len(b) and all(float(x) == float(y) for x, y in zip(a, b))):
+                return False
+        elif float(a) != float(b):
+            return False
+    return True
 
 
 # ==========================================================================
@@ -578,6 +618,13 @@ def _sparse_random(ctx, case):
                 unrelated()
             else:
                 ctx.check(np.array_equal(S.subs, first[0]) and np.array_equal(S.vals, first[1]), "sptenrand-reproducible-under-seed")
+        # (round 3) two results alive at once: the second result is kept while a third one is made and edited
+        np.random.seed(case["np_seed"])
+        with ctx.sut("sptenrand/third-call"):
+            S3 = ttb.sptenrand(_shape_arg(shape, case["form"]), **kw)
+        if isinstance(S3, ttb.sptensor):
+            spoil_sptensor(S3)
+        ctx.check(np.array_equal(S.subs, first[0]) and np.array_equal(S.vals, first[1]), "sptenrand-earlier-result-changed-by-later-call")
     else:
         calls = []
 
@@ -602,6 +649,13 @@ def _sparse_random(ctx, case):
             else:
                 ctx.check(np.array_equal(S.subs, first[0]) and np.array_equal(S.vals, first[1]),
                           "from_function-reproducible-under-seed")
+        np.random.seed(case["np_seed"])
+        with ctx.sut("sptensor.from_function/third-call"):
+            S3 = ttb.sptensor.from_function(fun, _shape_arg(shape, case["form"]), num(value))
+        if isinstance(S3, ttb.sptensor):
+            spoil_sptensor(S3)
+        ctx.check(np.array_equal(S.subs, first[0]) and np.array_equal(S.vals, first[1]),
+                  "from_function-earlier-result-changed-by-later-call")
 
 
 def request_class(case):
@@ -612,6 +666,181 @@ def request_class(case):
     if case["kind"] == "density" and size * case["value"] < 1:
         return "density-below-one-entry"
     return "one" if req <= 1 else "two-or-more"
+
+
+# ==========================================================================
+# round 3: shapes only a sparse tensor can have (products beyond 2**31, 2**53, 2**63; modes beyond 2**53)
+# ==========================================================================
+
+_HUGE_POOL = {
+    ">2^31": [70000, 2 ** 16 + 1, 2 ** 20, 46341],
+    ">2^53": [2 ** 20, 2 ** 27 + 3, 2 ** 31 - 1, 2 ** 31 + 5, 3_000_000],
+    ">2^63": [3_000_000, 2 ** 31 + 5, 2 ** 40, 2 ** 22 + 1, 5_000_000, 2 ** 62],
+    "mode>2^53": [2 ** 53 + 1, 2 ** 60, 2 ** 62, 2 ** 53 + 7],
+}
+_HUGE_THR = {">2^31": 2 ** 31, ">2^53": 2 ** 53, ">2^63": 2 ** 63, "mode>2^53": 2 ** 53}
+
+
+@st.composite
+def _huge_shape(draw):
+    cls = draw(st.sampled_from([">2^31", ">2^53", ">2^63", ">2^63", ">2^63", "mode>2^53"]))
+    shape = [draw(st.sampled_from(_HUGE_POOL[cls])) for _ in range(draw(st.integers(1, 3)))]
+    while ref.prod(shape) <= _HUGE_THR[cls]:
+        shape.append(draw(st.sampled_from(_HUGE_POOL[cls])))
+    for _ in range(draw(st.integers(0, 2))):  # small and singleton modes in between
+        shape.insert(draw(st.integers(0, len(shape))), draw(st.sampled_from([1, 2, 3, 5])))
+    return shape
+
+
+def _pos_in(dim):
+    opts = [st.integers(0, dim - 1), st.just(dim - 1), st.integers(max(0, dim - 9), dim - 1), st.integers(0, min(dim - 1, 8))]
+    if dim > 2 ** 53 + 64:
+        opts += [st.integers(2 ** 53, 2 ** 53 + 64), st.integers(2 ** 53, dim - 1)]
+    if dim > 2 ** 31 + 64:
+        opts += [st.integers(2 ** 31 - 2, 2 ** 31 + 2)]
+    return st.one_of(*opts)
+
+
+@st.composite
+def _huge_case(draw, tier):
+    shape = draw(_huge_shape())
+    api = draw(st.sampled_from(["sptenrand", "sptenrand-density", "from_function", "aggregator", "aggregator", "sptendiag"]))
+    c = dict(shape=shape, api=api, np_seed=draw(st.integers(0, 2 ** 31 - 1)),
+             sform=draw(st.sampled_from(["tuple", "list", "ndarray", "npint-list"])))
+    if api in ("sptenrand", "from_function", "sptenrand-density"):
+        k = draw(st.sampled_from([1, 2, 3, 7, 40, 500]))
+        c["count"] = k
+        c["value"] = (k - 0.5) / ref.prod(shape) if api == "sptenrand-density" else draw(st.sampled_from([k, float(k), k + 0.5]))
+    elif api == "aggregator":
+        nd = draw(st.integers(1, 6))
+        picks = draw(st.lists(st.tuples(*[_pos_in(d) for d in shape]), min_size=nd, max_size=nd, unique=True))
+        rows, vals = [], []
+        for s_ in picks:
+            mult = draw(st.sampled_from([1, 1, 2, 3]))
+            vs = draw(st.lists(gen.values("int"), min_size=mult, max_size=mult))
+            if mult >= 2 and draw(st.integers(0, 3)) == 0:
+                vs = vs[:-1] + [-sum(vs[:-1])]
+            for v in vs:
+                rows.append(list(s_))
+                vals.append(v)
+        p_ = draw(st.permutations(range(len(rows))))
+        c.update(subs=[rows[i] for i in p_], vals=[vals[i] for i in p_],
+                 reducer=draw(st.sampled_from(["default", "sum", "np.sum", "max", "min", "np.max", "callable-count"])),
+                 give_shape=draw(st.sampled_from(["given", "given", "inferred"])))
+    else:
+        k = draw(st.integers(1, 5))
+        c["elements"] = draw(st.lists(gen.values(draw(st.sampled_from(["int", "float"]))), min_size=k, max_size=k))
+        if draw(st.booleans()):  # some modes shorter than the element vector: they are enlarged
+            j = draw(st.integers(0, len(shape) - 1))
+            c["shape"] = shape[:j] + [draw(st.integers(1, 5))] + shape[j + 1:]
+    return c
+
+
+def _sp_dict(S):
+    """stored entries of a sparse tensor as {subscript tuple of Python ints: value}; None when a subscript repeats"""
+    if S.subs.size == 0:
+        return {}
+    out = {}
+    for r, v in zip(np.asarray(S.subs).tolist(), np.asarray(S.vals, dtype=float).reshape(-1).tolist()):
+        if tuple(r) in out:
+            return None
+        out[tuple(r)] = v
+    return out
+
+
+def _huge_wellformed(ctx, S, shape, what):
+    ctx.require(isinstance(S, ttb.sptensor), f"{what}-returns-sptensor", type(S).__name__)
+    ctx.check(tup(S.shape) == tuple(shape), f"{what}-shape", f"{S.shape} vs {shape}")
+    ctx.require(isinstance(S.subs, np.ndarray) and isinstance(S.vals, np.ndarray), f"{what}-arrays")
+    if S.subs.size:
+        ctx.require(S.subs.ndim == 2 and S.subs.shape[1] == len(shape) and np.issubdtype(S.subs.dtype, np.integer)
+                    and S.vals.shape == (S.subs.shape[0], 1), f"{what}-wellformed", (S.subs.shape, S.subs.dtype, S.vals.shape))
+        rows = S.subs.tolist()  # Python integers: no dtype can hide a wrap-around
+        ctx.check(all(0 <= x < d for r in rows for x, d in zip(r, shape)), f"{what}-subscripts-inside-shape",
+                  [r for r in rows if not all(0 <= x < d for x, d in zip(r, shape))][:2])
+        ctx.check(len({tuple(r) for r in rows}) == len(rows), f"{what}-subscripts-distinct")
+        ctx.check(not bool(np.any(S.vals == 0)), f"{what}-no-stored-zero")
+    return 0 if S.subs.size == 0 else S.subs.shape[0]
+
+
+@cell("C20/sparse/huge-shapes", strategy=_huge_case, quick=100, thorough=2000, shards=(2, 8))
+def sparse_huge(ctx, case):
+    """the generators that never allocate the full array, asked for shapes whose number of entries exceeds 2**31,
+    2**53 and 2**63 (linear positions that no int32 / float64 / int64 holds); every check on Python integers"""
+    shape, api = tuple(case["shape"]), case["api"]
+    size = ref.prod(shape)
+    ctx.label("api-" + api, f"order{len(shape)}", "size>2^63" if size > 2 ** 63 - 1 else ("size>2^53" if size > 2 ** 53 else "size>2^31"),
+              "mode>2^53" if max(shape) > 2 ** 53 else ("mode>2^31" if max(shape) > 2 ** 31 else "modes<=2^31"),
+              "shape-" + case["sform"])
+    ctx.nt = len(set(shape)) >= 2
+    sarg = lambda: _shape_arg(shape, case["sform"])  # noqa: E731
+    if api in ("sptenrand", "sptenrand-density", "from_function"):
+        kind = "density" if api == "sptenrand-density" else "count"
+        want = _requested(size, kind, case["value"])
+        ctx.label(f"request-{case['count']}")
+        first = None
+        for tag in ("", "/second-call"):
+            np.random.seed(case["np_seed"])
+            if api == "from_function":
+                with ctx.sut("sptensor.from_function/huge" + tag):
+                    S = ttb.sptensor.from_function(lambda s_: (np.arange(ref.prod(s_), dtype=float) + 1.5).reshape(s_), sarg(),
+                                                   case["value"])
+            else:
+                kw = dict(density=float(case["value"])) if kind == "density" else dict(nonzeros=case["value"])
+                with ctx.sut(api + "/huge" + tag):
+                    S = ttb.sptenrand(sarg(), **kw)
+            n = _huge_wellformed(ctx, S, shape, api + "/huge" + tag)
+            ctx.check(n in want, api + "-number-of-nonzeros/huge" + tag, f"got {n}, requested {sorted(want)}")
+            v = np.asarray(S.vals, dtype=float).reshape(-1)
+            if api == "from_function":
+                ctx.check(np.array_equal(v, np.arange(n, dtype=float) + 1.5), "from_function-values-are-function-output/huge" + tag)
+            else:
+                ctx.check(bool(np.all((v >= 0) & (v < 1))), "sptenrand-values-in-unit-interval/huge" + tag)
+            if first is None:
+                first = (np.array(S.subs, copy=True), np.array(S.vals, copy=True))
+                spoil_sptensor(S)
+            else:
+                ctx.check(np.array_equal(S.subs, first[0]) and np.array_equal(S.vals, first[1]), api + "-reproducible-under-seed/huge")
+        return
+    if api == "aggregator":
+        rows, vals, red = case["subs"], case["vals"], case["reducer"]
+        groups = {}
+        for s_, v in zip(rows, vals):
+            groups.setdefault(tuple(s_), []).append(v)
+        expect = {s_: _reduce(red, g) for s_, g in groups.items()}
+        expect = {s_: v for s_, v in expect.items() if v != 0}
+        out_shape = shape if case["give_shape"] == "given" else tuple(max(r[k] for r in rows) + 1 for k in range(len(shape)))
+        ctx.label("reducer-" + red, "shape-" + case["give_shape"], "has-repeat" if len(groups) < len(rows) else "all-distinct",
+                  "some-group-reduces-to-zero" if len(expect) < len(groups) else "no-zero-group",
+                  "subscript-not-a-float64" if any(int(float(x)) != x for r in rows for x in r) else "subscripts-are-float64")
+        subs = np.array(rows, dtype=np.int64).reshape(len(rows), len(shape))
+        v = np.array(vals, dtype=float).reshape(-1, 1)
+        kw = {}
+        if case["give_shape"] == "given":
+            kw["shape"] = _shape_arg(out_shape, case["sform"])
+        if red != "default":
+            kw["function_handle"] = _reducer_arg(red)
+        for tag in ("", "/second-call"):
+            a_subs, a_vals = subs.copy(), v.copy()
+            with ctx.sut("sptensor.from_aggregator/huge" + tag):
+                S = ttb.sptensor.from_aggregator(a_subs, a_vals, **kw)
+            _huge_wellformed(ctx, S, out_shape, "aggregator/huge" + tag)
+            got = _sp_dict(S)
+            ctx.check(got == expect, "aggregator-reduces-duplicates/huge" + tag, f"{got} vs {expect}")
+            ctx.check(np.array_equal(a_subs, subs) and np.array_equal(a_vals, v), "aggregator-leaves-arguments/huge" + tag)
+            spoil_sptensor(S)
+        return
+    el = case["elements"]
+    k = len(el)
+    out_shape = tuple(max(k, d) for d in shape)
+    expect = {(i,) * len(shape): float(x) for i, x in enumerate(el) if x != 0}
+    ctx.label("elements-longer-than-a-mode" if any(k > d for d in shape) else "elements-fit")
+    for tag in ("", "/second-call"):
+        with ctx.sut("sptendiag/huge" + tag):
+            S = ttb.sptendiag(np.array(el, dtype=float), sarg())
+        _huge_wellformed(ctx, S, out_shape, "sptendiag/huge" + tag)
+        ctx.check(_sp_dict(S) == expect, "sptendiag-values-on-superdiagonal/huge" + tag, f"{_sp_dict(S)} vs {expect}")
+        spoil_sptensor(S)
 
 
 # ==========================================================================
@@ -682,11 +911,15 @@ def _agg_case(draw, tier):
         moved[k] = top
     hi = max([max(r) for r in rows], default=0)
     sdt = draw(st.sampled_from(["int64", "int64", "int32"] + (["uint8"] if hi <= 255 else []) + ["uint16"]))
-    scale = draw(st.sampled_from([1.0, 1.0, 1.0, 1e-6, 1e6])) if vkind == "float" else 1.0
+    # (round 3) 1e-9 .. 1e-300: values and reduced values below every absolute tolerance are still not zero
+    scale = draw(st.sampled_from([1.0, 1.0, 1.0, 1e-6, 1e6, 1e-9, 1e-12, 1e-300])) if vkind == "float" else 1.0
+    reducer = draw(st.sampled_from(_REDUCERS))
+    if scale == 1e-300 and reducer in ("prod", "np.prod"):
+        scale = 1e-12  # (a product of such values underflows whichever way it is associated)
     return dict(shape=shape, subs=rows, vals=[v * scale for v in vals], vkind=vkind, scale=scale,
                 give_shape=draw(st.sampled_from(["given", "given", "inferred", "larger"])) if rows else "given",
                 sform=draw(st.sampled_from(_SHAPE_FORMS)) if max(shape) <= 255 else draw(st.sampled_from(["tuple", "list", "ndarray", "ndarray-int32"])),
-                reducer=draw(st.sampled_from(_REDUCERS)), subs_dtype=sdt,
+                reducer=reducer, subs_dtype=sdt,
                 subs_layout=draw(st.sampled_from(["C", "C", "F", "strided"])),
                 vals_dtype=draw(st.sampled_from(["float", "float", "int", "int32", "uint8"])) if vkind == "int" else "float")
 
@@ -776,6 +1009,12 @@ def _aggregator(ctx, case):
                 nterms = max(mults) if mults else 1
                 ok = ref.same_bound(got, E, B, nterms)
             ctx.check(ok, "aggregator-reduces-duplicates" + tag, ref.diff_info(got, E))
+            # (round 3) only exact zeros are dropped: a group whose result cannot be zero in any order of evaluation
+            # (one value, or all values of one sign; not the difference-type reducers) is stored however small it is
+            sure = [s_ for s_, g in groups.items() if red not in ("callable-range",) and all(x != 0 for x in g) and
+                    (len(g) == 1 or all(x > 0 for x in g) or all(x < 0 for x in g)) and E[s_] != 0]
+            missing = [s_ for s_ in sure if got[s_] == 0]
+            ctx.check(not missing, "aggregator-drops-only-exact-zeros" + tag, f"missing {missing[:3]} expected {[E[m] for m in missing[:3]]}")
         ctx.check(np.array_equal(a_subs, subs) and a_subs.dtype == subs.dtype and np.array_equal(a_vals, v),
                   "aggregator-leaves-arguments" + tag)
         if tag == "":
@@ -856,6 +1095,8 @@ def _single_row_other_reducer(c):
 
 
 PREDICATES = {
+    # tendiag assigns the (empty) element vector through an empty subscript array
+    "diag_no_elements": lambda c: "elements" in c and len(c["elements"]) == 0,
     # from_aggregator squeezes a one-row value column to a 0-d array, which numpy_groupies takes for a scalar
     "single_row_and_reducer_not_sum_or_prod": _single_row_other_reducer,
     # every retry of sptensor.from_function redraws all subscripts instead of accumulating: any request for >= 2 entries
